@@ -100,7 +100,8 @@ class PoolGen:
             return k
         # a host identity needs a connection no other host identity registered on
         for c in list(self.open):
-            if c not in self.used_by_host and c not in self.home.values():      # (a connection a host ever registered on stays that host's)
+            # (a connection a host ever registered on stays that host's: it may come back to it - c1, c2, c1 again)
+            if self.used_by_host.get(c) in (None, node) and c not in self.home.values():
                 self.home[node] = c
                 return c
         k = self.open_conn()
